@@ -49,5 +49,7 @@ def run(ctx: CheckContext):
     run_control(ctx, "C14/utility-columns-optional", analyse, p.root, "OpenPinch/analysis/direct_integration_entry.py",
                 "    get_utility_targets(\n        pt, pt_real, hot_utilities, cold_utilities, is_direct_integration=True\n    )",
                 "    if zone_config.DO_BALANCED_CC:\n        get_utility_targets(pt, pt_real, hot_utilities, cold_utilities, is_direct_integration=True)", "COLDEF")
+    run_control(ctx, "C14/site-child-handled-as-process", analyse, p.root, m,
+                "            elif z.identifier == ZoneType.S.value:\n                _get_site_targets(z)", "            elif z.identifier == ZoneType.S.value:\n                _get_process_targets(z)", "ORDER-DISPATCH")
     run_control(ctx, "C14/config-attr-typo", analyse, p.root, "OpenPinch/analysis/direct_integration_entry.py",
                 "do_assisted_ht_calc=zone_config.DO_ASSITED_HT,", "do_assisted_ht_calc=zone_config.DO_ASSISTED_HT,", "ATTR")
